@@ -12,7 +12,7 @@ PROOF_ASSUME = [
 ]
 
 PROPS = {
-    "C01": dict(level="proof", plain=dict(quick=2500, thorough=30000), cli=dict(kinds=[("incl", 1)], quick=200, thorough=5000), kinds=[("incl", 30), ("inclall", 1), ("achain", 1)], n=dict(quick=12400, thorough=200000, search=12000),
+    "C01": dict(level="proof", plain=dict(quick=2500, thorough=30000), cli=dict(kinds=[("incl", 1)], quick=200, thorough=5000), kinds=[("incl", 30), ("inclall", 1), ("achain", 1), ("cacheh", 1)], n=dict(quick=12400, thorough=200000, search=12000),
                 rule="random / derived / correlated pairs of explicit tree automata (≤5 states each, ranks ≤2); each pair is run "
                      "through all 8 selections + the default overload (API) and judged against the proved reference inclM; "
                      "non-trivial = L(A) non-empty (so the verdict is not vacuous); distinct = distinct case text",
@@ -43,7 +43,7 @@ PROPS = {
                      "empty and universal languages); Complement judged by isComplM (proved, both clauses); non-trivial = both "
                      "L(A) and L(C) non-empty",
                 assumptions=PROOF_ASSUME),
-    "C07": dict(level="proof", plain=dict(quick=2000, thorough=30000), cli=dict(kinds=[("bddincl", 1)], quick=150, thorough=4000), kinds=[("bddincl", 30), ("bddinclall", 1), ("achain", 1), ("ordvec", 1), ("bddsim", 2)], n=dict(quick=6800, thorough=200000, search=6000),
+    "C07": dict(level="proof", plain=dict(quick=2000, thorough=30000), cli=dict(kinds=[("bddincl", 1)], quick=150, thorough=4000), kinds=[("bddincl", 30), ("bddinclall", 1), ("achain", 1), ("ordvec", 1), ("bddsim", 2), ("cacheh", 1)], n=dict(quick=6800, thorough=200000, search=6000),
                 rule="the pairs of C01 (random / derived / split / correlated shapes) loaded from Timbuk text into both BDD "
                      "encodings: top-down × {rec, rec+cache} × {no simulation, simulation computed by the library's bottom-up "
                      "path for the sanitised operands}, bottom-up × {upward, downward+simulation, default overload}; each verdict "
@@ -59,7 +59,7 @@ PROPS = {
                      "(proved), every other automaton must keep its language; plus bottom-up → top-down conversion; non-trivial "
                      "= some intersection non-empty or conversion of a non-empty language",
                 assumptions=PROOF_ASSUME),
-    "C09": dict(level="proof", plain=dict(quick=2000, thorough=30000), cli=dict(kinds=[("nfah_cli", 1)], quick=200, thorough=5000), kinds=[("nfah_incl", 24), ("achain", 1), ("ordvec", 1)], n=dict(quick=5400, thorough=100000, search=5000),
+    "C09": dict(level="proof", plain=dict(quick=2000, thorough=30000), cli=dict(kinds=[("nfah_cli", 1)], quick=200, thorough=5000), kinds=[("nfah_incl", 24), ("achain", 1), ("ordvec", 1), ("cacheh", 1)], n=dict(quick=5400, thorough=100000, search=5000),
                 rule="pairs of NFAs (several start states, start∧final, dead / unreachable states, symbols in one operand only, "
                      "overlapping and sparse numbers; B mutated from / a nondeterministic split of A); antichains, congruence "
                      "depth / breadth and the default overload through the API on raw operands, each verdict judged against the "
